@@ -39,8 +39,8 @@ RULE = ("case = environment (sync or async, autoescape on/off) with 3 generated 
         "names (instrumented __getattribute__: the engine's feature probes jinja_pass_arg / __call__ on "
         "called objects, __html__ on printed / escaped / joined values, __aiter__ / __anext__ / "
         "__getitem__ checks, isinstance()'s __class__, and in the 25% SANDBOXED environments "
-        "unsafe_callable / alters_data) as events probe:<name>, fault points like all others (quick: "
-        "the __class__ lookups sampled 1 in 4); async: awaited "
+        "unsafe_callable / alters_data) as events probe:<name>, fault points like all others (the "
+        "__class__ lookups sampled 1 in 4); async: awaited "
         "callables, async iterables; MODULE-BODY fragments: import / from-import / include without "
         "context (incl. name list + ignore missing) / include of an importing template, of generated "
         "templates glib.j2 / incg.j2 whose top-level body calls / reads / iterates / str-converts "
@@ -97,8 +97,8 @@ RULE = ("case = environment (sync or async, autoescape on/off) with 3 generated 
         "distinct = (target source + recipe + i18n hash, API, k, fresh?) whose fault actually fired")
 TECHNIQUE = "probe-counted exhaustive fault injection with exception-identity and re-render oracle"
 LEVEL_TEXT = ("held on every enumerated fault point of the generated templates (each data event "
-              "of each clean run incl. the engine's own attribute lookups on the data objects, one API per point and "
-              "isinstance __class__ lookups sampled 1 in 4 in quick, all points and APIs in thorough); state that "
+              "of each clean run incl. the engine's own attribute lookups on the data objects, one API per point "
+              "in quick, all APIs in thorough; isinstance's __class__ lookups sampled 1 in 4); state that "
               "outlives a render is observed through eval-context sensitive sentinel macros in the "
               "cached modules, whose sensitivity is self-checked per case")
 ASSUMPTIONS = [
@@ -183,16 +183,16 @@ FLOORS = {
                            "fault_event:probe:alters_data": 40}},
     "thorough": {"evaluations": 170000, "distinct": 170000,
                  "counters": {"faults_fired": 170000, "identity_checks": 170000,
-                              "post_fault_renders": 500000, "cases": 500,
+                              "post_fault_renders": 500000, "cases": 400,
                               "faults_sync": 80000, "faults_async": 80000,
                               "faults_fresh_env": 45000,
                               "faults_fresh_env_in_module_body_sync": 9000,
                               "faults_fresh_env_in_module_body_async": 9000,
                               "faults_in_i18n_fragment": 20000,
                               "faults_in_i18n_fragment:newstyle:str": 4000,
-                              "faults_in_i18n_fragment:oldstyle:str": 2400,
+                              "faults_in_i18n_fragment:oldstyle:str": 2000,
                               "post_fault_sentinel_renders": 170000,
-                              "sentinel_sensitivity_checks": 500,
+                              "sentinel_sensitivity_checks": 400,
                               "faults_in_shared_state_fragment": 25000,
                               "faults_in_scoped_construct_of_cached_module": 20000,
                               "faults_in_scoped_construct_of_cached_module_sync": 11000,
@@ -206,17 +206,17 @@ FLOORS = {
                               "faults_in_deferred_macro_or_call_block_of_cached_module_async": 2700,
                               **{"deferred_via:" + c: 800 for c in DEFERRED_CHANNELS},
                               **{"deferred_defined_in:" + c: 600 for c in DEFERRED_NESTINGS},
-                              "faults_at_engine_initiated_attribute_probe": 60000,
-                              "faults_at_engine_initiated_attribute_probe_sync": 30000,
-                              "faults_at_engine_initiated_attribute_probe_async": 22000,
-                              "fault_event:probe:jinja_pass_arg": 8000,
-                              "fault_event:probe:__html__": 8000,
-                              "fault_event:probe:__call__": 16000,
-                              "fault_event:probe:__class__": 20000,
-                              "fault_event:probe:__aiter__": 150,
-                              "cases_sandboxed": 60, "faults_in_sandboxed_environment": 30000,
-                              "fault_event:probe:unsafe_callable": 1500,
-                              "fault_event:probe:alters_data": 1500}},
+                              "faults_at_engine_initiated_attribute_probe": 35000,
+                              "faults_at_engine_initiated_attribute_probe_sync": 17000,
+                              "faults_at_engine_initiated_attribute_probe_async": 13000,
+                              "fault_event:probe:jinja_pass_arg": 4500,
+                              "fault_event:probe:__html__": 4500,
+                              "fault_event:probe:__call__": 9000,
+                              "fault_event:probe:__class__": 8000,
+                              "fault_event:probe:__aiter__": 110,
+                              "cases_sandboxed": 30, "faults_in_sandboxed_environment": 22000,
+                              "fault_event:probe:unsafe_callable": 1000,
+                              "fault_event:probe:alters_data": 1000}},
 }
 
 SYNC_APIS = ["render", "generate", "stream"]
@@ -586,11 +586,11 @@ def run_case(ctx, case, recipe, quick, loop):
         N = nev[target]
         apis = apis_of(ce, target)
         for k in range(1, N + 1):
-            if quick and k % 4 and k <= len(kinds_at[target]) and \
+            if k % 4 and k <= len(kinds_at[target]) and \
                     kinds_at[target][k - 1] == "probe:__class__":
-                # quick: the __class__ lookups of isinstance() (by far the most frequent
-                # engine-side lookup, above all in the sandbox) are sampled 1 in 4
-                ctx.count("quick_skipped_isinstance_class_lookup_points")
+                # the __class__ lookups of isinstance() (by far the most frequent engine-side
+                # lookup, above all in the sandbox: a third of all events) are sampled 1 in 4
+                ctx.count("skipped_isinstance_class_lookup_points")
                 continue
             if quick and len(apis) > 1:
                 # one API per fault point, rotating; the asyncio.run wrapper is slow: 1 in 6
